@@ -180,3 +180,59 @@ pub fn load_image_n8() {
 pub fn load_image_n16() {
     load_check(16)
 }
+
+/// Light version of the RAM clause of `load`: only the 240 RAM bytes are arbitrary (the rest of the
+/// machine is as created), image length concrete, image bytes and limits symbolic.
+fn load_ram_check(len: usize) {
+    let mut m = Machine::new(MachineConfig::default());
+    let ram: [u8; 0xF0] = kani::any();
+    *m.raw_mut().bus_mut().memory_mut() = ram;
+    let img: [u8; 16] = kani::any();
+    let ss = any_stacksize();
+    let ps = any_programsize(false);
+    m.load(mk_program(&img, len, ss, ps));
+    let i = any_ram_index();
+    let expect = if i < len { img[i] } else { 0 };
+    assert!(m.bus().memory()[i] == expect, "RAM = image followed by zeros, whatever it held before");
+    assert!(m.stacksize() == ss, "stack size applied");
+    kani::cover!(i == 0xEF, "last RAM cell");
+}
+
+#[cfg_attr(kani, kani::proof)]
+#[cfg_attr(kani, kani::unwind(242))]
+pub fn load_ram_n0() {
+    load_ram_check(0)
+}
+
+#[cfg_attr(kani, kani::proof)]
+#[cfg_attr(kani, kani::unwind(242))]
+pub fn load_ram_n2() {
+    load_ram_check(2)
+}
+
+#[cfg_attr(kani, kani::proof)]
+#[cfg_attr(kani, kani::unwind(242))]
+pub fn load_ram_n16() {
+    load_ram_check(16)
+}
+
+/// A program without any line (e.g. a source file consisting of the header only... every line of
+/// which is empty produces empty byte vectors; here the line list itself is empty): RAM must be
+/// all zeros afterwards, whatever it held before.
+#[cfg_attr(kani, kani::proof)]
+#[cfg_attr(kani, kani::unwind(242))]
+pub fn load_ram_empty_program() {
+    let mut m = Machine::new(MachineConfig::default());
+    let ram: [u8; 0xF0] = kani::any();
+    *m.raw_mut().bus_mut().memory_mut() = ram;
+    let ss = any_stacksize();
+    m.load(ByteCode {
+        lines: vec![],
+        stacksize: ss,
+        programsize: Programsize::Auto,
+    });
+    let i = any_ram_index();
+    assert!(m.bus().memory()[i] == 0, "RAM all zeros after loading an empty program");
+    assert!(m.programsize() == Programsize::Size(0), "program size of an empty image");
+    kani::cover!(i == 0xEF, "last RAM cell");
+}
